@@ -627,7 +627,7 @@ func runC16(r *rt.Runner) {
 			c16Bundle(c, b, nil, "position:"+tn+"/path", "path-positions")
 		})
 	}
-	for rec := 0; rec <= 4; rec++ {
+	for rec := 0; rec <= 6; rec++ {
 		rec := rec
 		r.Do(fmt.Sprintf("list-recursion/%d", rec), func(c *rt.C) {
 			g := &j5Gen{rng: c.Rand()}
@@ -639,7 +639,7 @@ func runC16(r *rt.Runner) {
 		r.Do(fmt.Sprintf("api/%d", i), func(c *rt.C) {
 			g := &j5Gen{rng: c.Rand()}
 			withList := i%2 == 0
-			b, plans := g.apiBundle(i%3 != 0, withList, g.rng.Intn(5))
+			b, plans := g.apiBundle(i%3 != 0, withList, g.rng.Intn(7))
 			class := "api"
 			if withList {
 				class = "list-methods"
